@@ -3,6 +3,7 @@ package c01
 
 import (
 	"fmt"
+	"math"
 	"sort"
 	"strings"
 	"sync"
@@ -53,10 +54,13 @@ type config struct {
 	Flap             int // 0 off, 1 (lo,1.0), 2 general (0.25,0.5)
 	Batch            bool
 	TagID            bool
+	// Crit2: the crit condition reads its own field "c" (a mirror of v) that some points lack:
+	// its condition cannot be evaluated for them while the lower levels can
+	Crit2 bool
 }
 
 func (c config) String() string {
-	return fmt.Sprintf("i%v w%v c%v resets=%v sco=%d norec=%v all=%v hist=%d flap=%d batch=%v", b2i(c.Info), b2i(c.Warn), b2i(c.Crit), c.Resets, c.SCO, c.NoRec, c.All, c.History, c.Flap, c.Batch)
+	return fmt.Sprintf("i%v w%v c%v resets=%v sco=%d norec=%v all=%v hist=%d flap=%d batch=%v crit2=%v", b2i(c.Info), b2i(c.Warn), b2i(c.Crit), c.Resets, c.SCO, c.NoRec, c.All, c.History, c.Flap, c.Batch, c.Crit2)
 }
 func b2i(b bool) int {
 	if b {
@@ -66,11 +70,11 @@ func b2i(b bool) int {
 }
 
 func cfgParams(c config) map[string]interface{} {
-	return map[string]interface{}{"info": c.Info, "warn": c.Warn, "crit": c.Crit, "resets": c.Resets, "sco": c.SCO, "norec": c.NoRec, "all": c.All, "hist": c.History, "flap": c.Flap, "batch": c.Batch}
+	return map[string]interface{}{"info": c.Info, "warn": c.Warn, "crit": c.Crit, "resets": c.Resets, "sco": c.SCO, "norec": c.NoRec, "all": c.All, "hist": c.History, "flap": c.Flap, "batch": c.Batch, "crit2": c.Crit2}
 }
 func cfgOf(c core.Case) config {
 	return config{Info: c.PBool("info"), Warn: c.PBool("warn"), Crit: c.PBool("crit"), Resets: c.PBool("resets"), SCO: c.PInt("sco", 0), NoRec: c.PBool("norec"),
-		All: c.PBool("all"), History: c.PInt("hist", 0), Flap: c.PInt("flap", 0), Batch: c.PBool("batch")}
+		All: c.PBool("all"), History: c.PInt("hist", 0), Flap: c.PInt("flap", 0), Batch: c.PBool("batch"), Crit2: c.PBool("crit2")}
 }
 
 func (prop) Cases(tier string, seed uint64) []core.Case {
@@ -94,6 +98,11 @@ func (prop) Cases(tier string, seed uint64) []core.Case {
 		}
 		add(config{Info: true, Warn: true, Crit: true, Resets: true, Batch: batch}, pick(tier, 4, 5), seed+uint64(len(cs)))
 		add(config{Info: true, Warn: true, Crit: true, Resets: true, SCO: 2, Batch: batch}, pick(tier, 4, 5), seed+uint64(len(cs)))
+	}
+	for _, batch := range []bool{false, true} {
+		add(config{Info: true, Warn: true, Crit: true, Crit2: true, Batch: batch}, 4, seed+90)
+		add(config{Info: true, Warn: true, Crit: true, Crit2: true, SCO: 1, NoRec: batch, Batch: batch}, 4, seed+91)
+		add(config{Warn: true, Crit: true, Crit2: true, Resets: true, Batch: batch}, 3, seed+92)
 	}
 	add(config{Info: true, Warn: true, Crit: true, All: true, Batch: true}, 5, seed+77)
 	add(config{Info: true, Warn: true, Crit: true, All: true, SCO: 1, Batch: true}, 5, seed+78)
@@ -135,7 +144,16 @@ const badType = -2000.0
 
 type lvl = alert.Level
 
+// A value with a fractional part (x.25) stands for a point that carries v = r = x but lacks the
+// field "c" of the Crit2 crit condition.
+func noC(v float64) bool      { return v > 0 && v != math.Floor(v) }
+func plain(v float64) float64 { return math.Floor(v) }
+
 func (c config) cond(l lvl, v float64) bool {
+	if l == alert.Critical && c.Crit2 && noC(v) {
+		return false // cannot be evaluated: does not hold
+	}
+	v = plain(v)
 	switch l {
 	case alert.Info:
 		return c.Info && v > 10
@@ -161,6 +179,7 @@ func (c config) hasReset(l lvl) bool {
 	return false
 }
 func (c config) resetHolds(l lvl, v float64) bool {
+	v = plain(v)
 	switch l {
 	case alert.Info:
 		return v < 5
@@ -275,7 +294,11 @@ func script(c config) string {
 		}
 	}
 	if c.Crit {
-		sb.WriteString(".crit(lambda: \"v\" > 30.0)")
+		if c.Crit2 {
+			sb.WriteString(".crit(lambda: \"c\" > 30.0)")
+		} else {
+			sb.WriteString(".crit(lambda: \"v\" > 30.0)")
+		}
 		if c.Resets {
 			sb.WriteString(".critReset(lambda: \"v\" < 25.0)")
 		}
@@ -315,6 +338,16 @@ func (prop) Run(x *core.Ctx) {
 	classes := classesNoReset
 	if c.Resets {
 		classes = classesReset
+	}
+	if c.Crit2 {
+		// the same classes, each also as a point without the crit field (exhaustive lengths are
+		// chosen shorter for these configurations)
+		classes = append([]float64{}, classes...)
+		for _, v := range classes[:len(classes):len(classes)] {
+			if v > 10 {
+				classes = append(classes, v+0.25)
+			}
+		}
 	}
 	// ---- sequences (per ID): values per step; batch: 1-4 values per step
 	type seq struct {
@@ -397,7 +430,10 @@ func (prop) Run(x *core.Ctx) {
 		case badType:
 			return models.Fields{"v": "high", "n": int64(seqNo)}
 		}
-		return models.Fields{"v": v, "r": v, "n": int64(seqNo)}
+		if noC(v) {
+			return models.Fields{"v": plain(v), "r": plain(v), "n": int64(seqNo)}
+		}
+		return models.Fields{"v": v, "r": v, "c": v, "n": int64(seqNo)}
 	}
 	if c.Batch {
 		et, err := env.StartBatch("a", src, nil)
